@@ -129,6 +129,13 @@ def real_banks(run, tier, nprng):
         if log:
             borderline = np.abs(exp - pconfig.LOG_FLOOR_VALUE) <= 1e-6 * pconfig.LOG_FLOOR_VALUE
             exp = np.log(np.maximum(exp, pconfig.LOG_FLOOR_VALUE))
+        if k % 2 == 0:
+            # a signal of integer samples offered first (refused today; accepted or not, it is none of the float signals'
+            # business: "input of any floating dtype is accepted" also afterwards)
+            try:
+                comp.compute_full((x * 100).astype(np.int16))
+            except Exception:
+                pass
         for dt, tol in ((np.float64, 1e-7), (np.float32, 2e-3), (np.float16, 5e-2)):
             got = comp.compute_full(x.astype(dt))
             run.evaluations += 1
